@@ -136,7 +136,7 @@ def check_ports(ctx):
 OPS = ["Noop", "MakeTuple", "UnpackTuple", "Tag", "Not", "DivMod", "H", "CX", "Measure", "Fan3",
        "Nop0", "Swap", "QAlloc", "QFree", "Custom", "CallIndirect", "Some", "Break"]
 VIAS = ["add_op", "add", "extend", "tracked"]
-KINDS = ["op"] * 6 + ["call-mono", "call-poly", "call-rowpoly", "load", "nested", "cfg", "cond", "loop",
+KINDS = ["op"] * 6 + ["call-mono", "call-poly", "call-rowpoly", "load", "nested", "cfg", "cond", "loop", "ifelse",
                       "insert_nested", "insert_cfg", "insert_cond", "insert_loop"]
 
 
@@ -309,6 +309,16 @@ def run_scenario(ctx, sc):
             c1.set_outputs(*c1.inputs()[:k])
         h = b if kind == "cond" else outer.insert_conditional(b, sumw, *bwires[:m])
         handle_checks(ctx, h, k, sc, kind)
+    elif kind == "ifelse":
+        # the conditional reached through add_if / add_else: `conditional_node` of either branch builder is the
+        # handle of a container whose outputs are set
+        cw = outer.load(val.TRUE)
+        if_ = outer.add_if(cw, *bwires[:k])
+        if_.set_outputs(*if_.inputs())
+        else_ = if_.add_else()
+        else_.set_outputs(*else_.inputs())
+        handle_checks(ctx, else_.conditional_node, k, sc, "add_else().conditional_node")
+        handle_checks(ctx, if_.conditional_node, k, sc, "add_if().conditional_node")
     elif kind in ("loop", "insert_loop"):
         b = (outer.add_tail_loop([bwires[0]], bwires[1:k]) if kind == "loop"
              else TailLoop([B], [B] * max(k - 1, 0)))
